@@ -93,13 +93,17 @@ fn pretty_from_tokens(t: &[&str]) -> String {
     out
 }
 
-/// collapse the whitespace inside empty containers (left unspecified by the property)
+/// collapse the whitespace inside empty containers: whether an empty container is written on one
+/// line, with a line break or with a blank line is left open by the property, but if its closing
+/// bracket stands on a line of its own, that line is indented like every other line (two spaces per
+/// level of the container); anything else is left in place and fails the layout comparison
 fn collapse_empty(s: &str) -> String {
     let mut out = String::with_capacity(s.len());
     let b: Vec<char> = s.chars().collect();
     let mut i = 0;
     let mut in_str = false;
     let mut esc = false;
+    let mut depth = 0usize;
     while i < b.len() {
         let c = b[i];
         if in_str {
@@ -127,11 +131,21 @@ fn collapse_empty(s: &str) -> String {
                 j += 1;
             }
             if j < b.len() && b[j] == close {
-                out.push(c);
-                out.push(close);
-                i = j + 1;
-                continue;
+                let ws: String = b[i + 1..j].iter().collect();
+                let indent_ok = match ws.rfind('\n') {
+                    None => true,
+                    Some(k) => ws[k + 1..].chars().all(|x| x == ' ') && ws[k + 1..].len() == 2 * depth,
+                };
+                if indent_ok {
+                    out.push(c);
+                    out.push(close);
+                    i = j + 1;
+                    continue;
+                }
             }
+            depth += 1;
+        } else if c == ']' || c == '}' {
+            depth = depth.saturating_sub(1);
         }
         out.push(c);
         i += 1;
